@@ -21,6 +21,7 @@ LIB = ('{ a: 1, bad: error "bad lib", f(x):: x * 2, '
        'lazyobj: { p: $.a + 1, q: error "q" }, chain: std.foldl(function(a, i) a + 1, std.range(1, 30), 0), '
        'e_type: 1 - "a", e_field: {}.nope, e_index: [1][5], e_div: 1 / 0, e_arg: std.length(1), '
        'e_call: (function(x) x)(), badmap: std.map(function(x, y) x, [10, 20]), okmap: std.map(function(x) x + 1, [10, 20]), '
+       'acct: { user: "u", pw: "p", has: std.objectHasAll(self, "pw"), n: std.length(std.objectFieldsAll(self)) }, '
        'e_import: import "missing.libsonnet", e_assertobj: { assert false : "ao", a: 1 }.a, e_flat: std.flatMap(function(x, y) [x], [1]) }')
 FILES = {"lib.libsonnet": '{ f(x):: x + 100, v: std.extVar("lib").a, bad: error "bad import", big: std.makeArray(50, function(i) i) }'}
 SOURCES = [
@@ -44,6 +45,9 @@ SOURCES = [
     'std.extVar("lib").e_type', 'std.extVar("lib").e_field', 'std.extVar("lib").e_index',   # 17 18 19
     'std.extVar("lib").e_div', 'std.extVar("lib").e_arg', 'std.extVar("lib").e_call',       # 20 21 22
     'std.extVar("lib").e_import', 'std.extVar("lib").e_assertobj', 'std.extVar("lib").e_flat',  # 23 24 25
+    'std.objectRemoveKey(std.extVar("lib").acct, "pw")',                    # 26 derives an object from a shared one
+    'std.extVar("lib").acct',                                               # 27 looks into the shared object
+    'std.extVar("lib").acct + { pw: "q" }',                                 # 28 extends the shared object
 ]
 CALLSRC_ARGS = {15: {"a": 13, "b": 14}}
 CALL_ARGS = {5: {"a": "10"}}
